@@ -196,15 +196,32 @@ class Cell(NullCell):
         # Hash_repr(c) := sha256(CellRepr(c))
         return hashlib.sha256(self.get_representation()).digest()
 
-    def order(self, result: dict = {}) -> dict:
+    def order(self, result: dict = None) -> dict:
         """
         :return: dict {<Cell>: <index>}
         """
-        if self in result:
-            result.pop(self)
-        result[self] = None
-        for ref in self.refs:
-            ref.order(result)
+        if result is None:
+            result = {}
+        # Reversed post-order of a depth-first walk that takes the references right to left: the same order as
+        # re-appending every cell on each visit, but each distinct cell is expanded once and no recursion is used,
+        # so shared sub-trees cost nothing extra and chains of the maximum depth (1023) can be serialised.
+        post = []
+        seen = {self}
+        stack = [(self, 0)]
+        while stack:
+            cell, i = stack.pop()
+            if i < len(cell.refs):
+                stack.append((cell, i + 1))
+                ref = cell.refs[len(cell.refs) - 1 - i]
+                if ref not in seen:
+                    seen.add(ref)
+                    stack.append((ref, 0))
+            else:
+                post.append(cell)
+        for cell in reversed(post):
+            if cell in result:
+                result.pop(cell)
+            result[cell] = None
         return result
 
     def serialize(self, indexes: dict, byte_len: int) -> bytes:
